@@ -16,6 +16,25 @@ import (
 type MapRefStore struct {
 	mu sync.Mutex
 	M  map[string][]byte
+	// OnWrite, when set, is called (without the lock) after every mutating call.
+	OnWrite func(op string)
+}
+
+func (s *MapRefStore) wrote(op string) {
+	if s.OnWrite != nil {
+		s.OnWrite(op)
+	}
+}
+
+// Snapshot returns a copy of the refs.
+func (s *MapRefStore) Snapshot() *MapRefStore {
+	s.mu.Lock()
+	defer s.mu.Unlock()
+	c := NewMapRefStore()
+	for k, v := range s.M {
+		c.M[k] = append([]byte(nil), v...)
+	}
+	return c
 }
 
 func NewMapRefStore() *MapRefStore { return &MapRefStore{M: map[string][]byte{}} }
@@ -27,8 +46,9 @@ func (s *MapRefStore) SetWithLog(key string, val []byte, log *ref.Reflog) error 
 }
 func (s *MapRefStore) Set(key string, val []byte) error {
 	s.mu.Lock()
-	defer s.mu.Unlock()
 	s.M[key] = append([]byte(nil), val...)
+	s.mu.Unlock()
+	s.wrote("ref.Set " + key)
 	return nil
 }
 func (s *MapRefStore) Get(key string) ([]byte, error) {
@@ -41,8 +61,9 @@ func (s *MapRefStore) Get(key string) ([]byte, error) {
 }
 func (s *MapRefStore) Delete(key string) error {
 	s.mu.Lock()
-	defer s.mu.Unlock()
 	delete(s.M, key)
+	s.mu.Unlock()
+	s.wrote("ref.Delete " + key)
 	return nil
 }
 func match(k string, prefixes, notPrefixes []string) bool {
